@@ -65,6 +65,8 @@ def configs(tier, seed):
         ("uint64", 2, (1, 1, 2), (2, 1, 1)),
         ("uint64", 1, (2, 1, 2), (2, 1, 1)),      # non-cubic, two blocks along z
         ("uint32", 1, (1, 2, 2), (1, 2, 1)),
+        ("uint32", 1, (1, 2, 2), (2, 1, 1)),      # two blocks along y with bx != by
+        ("uint64", 1, (2, 2, 1), (1, 2, 1)),      # two blocks along z with by != bz
         ("uint64", 1, (1, 3, 2), (2, 3, 1)),      # 6-voxel non-cubic block
         ("uint32", 1, (2, 1, 4), (4, 1, 2)),      # 8-voxel non-cubic block
         ("uint64", 1, (3, 1, 1), (1, 1, 2)),      # padded in z
